@@ -35,6 +35,118 @@ func (e *Engine) Prelude() string {
 	return b.String()
 }
 
+// QFPrelude is the prelude with every quantified definition made opaque: define-funs whose
+// body contains a quantifier become declare-funs, quantified asserts are dropped. Proving an
+// obligation against it (with quantified subformulas abstracted to Boolean constants) is sound:
+// hypotheses are only weakened.
+func (e *Engine) QFPrelude() string {
+	var b strings.Builder
+	b.WriteString("(set-option :produce-models true)\n(set-logic ALL)\n")
+	conv := func(text string) {
+		xs, err := parseSX(text)
+		if err != nil {
+			b.WriteString(text)
+			return
+		}
+		for _, x := range xs {
+			str := x.String()
+			quant := strings.Contains(str, "(forall ") || strings.Contains(str, "(exists ")
+			if quant && x.IsL && len(x.List) > 0 {
+				switch x.List[0].Atom {
+				case "assert":
+					continue
+				case "define-fun", "define-fun-rec":
+					var as []string
+					for _, a := range x.List[2].List {
+						as = append(as, a.List[1].String())
+					}
+					fmt.Fprintf(&b, "(declare-fun %s (%s) %s)\n", x.List[1].Atom, strings.Join(as, " "), x.List[3].String())
+					continue
+				}
+			}
+			b.WriteString(str)
+			b.WriteString("\n")
+		}
+	}
+	conv(e.Spec.PreText)
+	b.WriteString(e.Sorts.Decls())
+	conv(builtinPrelude)
+	conv(e.Spec.Text)
+	return b.String()
+}
+
+// abstractQuantifiers replaces every quantified subformula by a Boolean constant (one per distinct text).
+func abstractQuantifiers(terms []string) ([]string, []string, bool) {
+	names := map[string]string{}
+	var decls []string
+	any := false
+	var walk func(x *SX) *SX
+	walk = func(x *SX) *SX {
+		if !x.IsL || len(x.List) == 0 {
+			return x
+		}
+		if h := x.List[0]; !h.IsL && (h.Atom == "forall" || h.Atom == "exists") {
+			key := x.String()
+			n, ok := names[key]
+			if !ok {
+				n = fmt.Sprintf("q!abs!%d", len(names))
+				names[key] = n
+				decls = append(decls, fmt.Sprintf("(declare-const %s Bool)", n))
+			}
+			any = true
+			return &SX{Atom: n}
+		}
+		out := &SX{IsL: true, List: make([]*SX, len(x.List))}
+		for i, c := range x.List {
+			out.List[i] = walk(c)
+		}
+		return out
+	}
+	res := make([]string, len(terms))
+	for i, t := range terms {
+		if !strings.Contains(t, "(forall ") && !strings.Contains(t, "(exists ") {
+			res[i] = t
+			continue
+		}
+		xs, err := parseSX(t)
+		if err != nil || len(xs) != 1 {
+			res[i] = "true"
+			continue
+		}
+		res[i] = walk(xs[0]).String()
+	}
+	return res, decls, any
+}
+
+// SMTQF renders the obligation with quantifiers abstracted.
+func (o *Obligation) SMTQF(prelude string) string {
+	all := append(append([]string(nil), o.Hyps...), o.Goal)
+	abs, decls, _ := abstractQuantifiers(all)
+	var b strings.Builder
+	b.WriteString("; obligation " + o.ID + " (quantifier-free abstraction)\n")
+	b.WriteString(prelude)
+	for _, d := range *o.Decls {
+		b.WriteString(d)
+		b.WriteString("\n")
+	}
+	for _, d := range decls {
+		b.WriteString(d)
+		b.WriteString("\n")
+	}
+	for _, h := range abs[:len(abs)-1] {
+		if h == "true" {
+			continue
+		}
+		b.WriteString("(assert ")
+		b.WriteString(h)
+		b.WriteString(")\n")
+	}
+	b.WriteString("(assert (not ")
+	b.WriteString(abs[len(abs)-1])
+	b.WriteString("))\n(check-sat)\n")
+	return b.String()
+}
+
 func (o *Obligation) SMT(prelude string) string {
 	var b strings.Builder
 	b.WriteString("; obligation " + o.ID + "\n; " + strings.ReplaceAll(o.GoalText, "\n", " ") + "\n; path " + o.Path + "\n")
@@ -113,6 +225,7 @@ type Solver struct {
 	Agreement bool // thorough: every back end that answers must agree
 	Par       int
 	Prelude   string
+	QFPrelude string
 	mu        sync.Mutex
 	ByBackend map[string]*backendStat
 	Seed      int
@@ -197,6 +310,25 @@ func (s *Solver) solveOne(i int, o *Obligation) {
 		return false
 	}
 	ctx := context.Background()
+	// stage 0: quantifier-free abstraction (sound: hypotheses only weakened); unsat there is a proof
+	if !o.ExpectSat && s.QFPrelude != "" {
+		qf := strings.TrimSuffix(file, ".smt2") + ".qf.smt2"
+		os.WriteFile(qf, []byte(o.SMTQF(s.QFPrelude)), 0o644)
+		t0 := 3
+		if s.Timeout < t0 {
+			t0 = s.Timeout
+		}
+		a := runSolver(ctx, solvers[0], qf, t0)
+		o.Seconds += a.secs
+		if a.verdict == "unsat" {
+			o.Status = "discharged"
+			o.Backend = a.solver + "/qf"
+			s.note(o.Backend, a.secs)
+			if !s.Agreement {
+				return
+			}
+		}
+	}
 	// stage 1: z3-new alone, short
 	t1 := 3
 	if s.Timeout < t1 {
